@@ -59,7 +59,8 @@ func runHarness(ld *Loaded, fn *ssa.Function, cfg *RunConfig) (h *HarnessRun, e 
 		e.initPkgs[p] = true
 	}
 	// overrides: functions named vStub_<pkg>_<Func> or vStub_<pkg>_<Type>_<Method> in harness packages
-	for _, sp := range ld.Pkgs {
+	// (only the stubs of the harness's own package apply: hotline and mobius harnesses keep separate environments)
+	if sp := fn.Pkg; sp != nil {
 		for n, m := range sp.Members {
 			if f, ok := m.(*ssa.Function); ok && strings.HasPrefix(n, "vStub_") {
 				e.stubFns = append(e.stubFns, f)
